@@ -4,7 +4,7 @@
    bytes = list N; pver = negotiated protocol version; ebs = the configured excessive block size
    (maxMessagePayload = max_message_payload ebs); net = the network magic. *)
 From Coq Require Import NArith ZArith List Bool.
-From BHS Require Import Sha256 WireBase WireBaseProofs WireMsg WireMsgProofs WireFrame WireSpec WireSpecProofs WireFrameProofs WireLenProofs WireSuffixProofs.
+From BHS Require Import Sha256 WireBase WireBaseProofs WireMsg WireMsgProofs WireFrame WireSpec WireSpecProofs WireFrameProofs WireLenProofs WireSuffixProofs WireStreamProofs.
 Import ListNotations.
 Open Scope N_scope.
 
@@ -19,6 +19,20 @@ Theorem C14_decode_encode : forall pver mmp m rest,
   enc_check pver m = None /\
   dec_payload pver mmp (kind_of m) (enc_payload pver m ++ rest) = Ok (m, rest).
 Proof. exact decode_encode. Qed.
+
+(* Go holds an IPv4 address as 4 bytes or as the 16-byte IPv4-mapped form: both forms of a message
+   (norm_msg rewrites every 4-byte address of version / addr into the mapped form) encode to the same
+   bytes, are refused or not alike, and decode(encode m) is the mapped form *)
+Theorem C14_encode_ip_forms : forall pver m,
+  enc_payload pver (norm_msg m) = enc_payload pver m /\ enc_check pver (norm_msg m) = enc_check pver m /\
+  kind_of (norm_msg m) = kind_of m.
+Proof. exact enc_payload_norm. Qed.
+
+Theorem C14_decode_encode_norm : forall pver mmp m rest,
+  mmp < 2 ^ 64 -> wf_msg pver mmp (norm_msg m) = true -> rest_ok pver (norm_msg m) rest ->
+  enc_check pver m = None /\
+  dec_payload pver mmp (kind_of m) (enc_payload pver m ++ rest) = Ok (norm_msg m, rest).
+Proof. exact decode_encode_norm. Qed.
 
 (* re-encoding a decoded message reproduces the bytes *)
 Theorem C14_reencode : forall pver mmp m m' rest',
@@ -78,6 +92,26 @@ Theorem C14_read_message_consumes : forall pver net ebs bs,
   | FErr e rest => exists used, bs = used ++ rest
   end.
 Proof. exact read_message_consumes. Qed.
+
+(* ---- several frames on one reader (the peer loop calls ReadMessage repeatedly on one connection) ----
+   framed ebs f: f is a 24-byte header whose length field is within the global maximum, followed by exactly
+   that many payload bytes.  Whatever the verdict on such a frame (accepted, wrong magic, unknown command,
+   above its type's limit, bad checksum, refused by the payload decoder), the reader is left with exactly
+   what follows it; hence on ANY byte string the i-th ReadMessage gives the verdict of the i-th leading
+   fully framed frame alone, and after those frames reading continues on the tail (split_frames is the
+   declarative cut the oracle applies to the implementation's results). *)
+Theorem C14_read_message_framed : forall pver net ebs f x, framed ebs f ->
+  read_message pver net ebs (f ++ x) = add_rest (read_message pver net ebs f) x /\
+  frame_rest (read_message pver net ebs f) = [].
+Proof. exact read_message_framed. Qed.
+
+Theorem C14_stream_in_step : forall fuel pver net ebs bs,
+  exists tail,
+    bs = concat (split_frames fuel ebs bs) ++ tail /\
+    read_stream fuel pver net ebs bs =
+    expected pver net ebs (split_frames fuel ebs bs) tail ++
+    read_stream (fuel - length (split_frames fuel ebs bs)) pver net ebs tail.
+Proof. exact stream_in_step. Qed.
 
 (* ---- rejection, for every byte string ---- *)
 Theorem C14_must_reject : forall pver net ebs bs,
@@ -145,6 +179,10 @@ Theorem C14_sha256_length : forall bs, length (sha256 bs) = 32%nat.
 Proof. exact sha256_length. Qed.
 
 Print Assumptions C14_decode_encode.
+Print Assumptions C14_encode_ip_forms.
+Print Assumptions C14_decode_encode_norm.
+Print Assumptions C14_read_message_framed.
+Print Assumptions C14_stream_in_step.
 Print Assumptions C14_reencode.
 Print Assumptions C14_reencode_canonical.
 Print Assumptions C14_frame_roundtrip.
